@@ -812,8 +812,13 @@ def replay(ctx, payload):
 
 def replay_known(ctx, finding):
     w = finding.get('witness') or {}
-    if w.get('kind') == 'longstring':
-        s = w.get('text') or uncodes(w['s'])
-        out = impl_long(s, w.get('ext', True), '\t')
-        return impl_read_colon(out + '\n', True).get('strings') != [codes(s)]
+    if w.get('kind') == 'kv-spawnflags-desc':
+        from srctools.fgd import FGD, EntityDef, EntityTypes, KVDef, ValueTypes
+        fgd = FGD()
+        e = EntityDef(EntityTypes.POINT, 'ent')
+        e.keyvalues['spawnflags'] = {frozenset(): KVDef('spawnflags', ValueTypes.SPAWNFLAGS, 'spawnflags', '', w['desc'], [(1, 'a', True, frozenset())])}
+        e.kv_order = ['spawnflags']
+        fgd.entities['ent'] = e
+        probs, _ = G.text_roundtrip(fgd, True, True)
+        return bool(probs)
     return None
